@@ -163,7 +163,11 @@ def _c10(ctx):
 
 
 def _c18(ctx):
-    return _exc_rules(ctx, 'C18') + [_w1(ctx, 'C18', 7), _x10(ctx), _x9(ctx, ('src/Geohash.cpp', 'src/GARS.cpp', 'src/Georef.cpp', 'src/OSGB.cpp'), 4, 80), _t3(ctx, {'Geohash', 'GARS', 'Georef', 'OSGB'}, 22),
+    from .rules import relidx
+    x7r, nsite, nproved = relidx.rule_X7r(ctx, ('src/GARS.cpp', 'src/Georef.cpp', 'src/OSGB.cpp', 'src/Geohash.cpp'))
+    x7r.floor('subscript sites', nsite, 20)
+    x7r.floor('sites proved on every path', nproved, 18)
+    return _exc_rules(ctx, 'C18') + [x7r, _w1(ctx, 'C18', 7), _x10(ctx), _x9(ctx, ('src/Geohash.cpp', 'src/GARS.cpp', 'src/Georef.cpp', 'src/OSGB.cpp'), 4, 80), _t3(ctx, {'Geohash', 'GARS', 'Georef', 'OSGB'}, 22),
                                       _x7(ctx, ('src/Geohash.cpp', 'src/GARS.cpp', 'src/Georef.cpp', 'src/OSGB.cpp'), 25, 20, 10)]
 
 
